@@ -90,6 +90,24 @@ type Store struct {
 	DryRunVerdict func(obj *unstructured.Unstructured) error
 	// Reads counts Get/List calls (for "no reads" style assertions).
 	Reads int
+	// Calls counts every API call (Get, List and every mutating request incl. dry runs);
+	// CallFault, if set, is asked with the 0-based index of the call (req == nil for reads) and may
+	// fail it before or after it takes effect (C10: every API call is an injection point).
+	Calls     int
+	CallFault func(idx int, req *Request) Fault
+}
+
+// callFault numbers the call and asks the scenario's fault hook.
+func (s *Store) callFault(req *Request) Fault {
+	s.mu.Lock()
+	idx := s.Calls
+	s.Calls++
+	hook := s.CallFault
+	s.mu.Unlock()
+	if hook == nil {
+		return Fault{}
+	}
+	return hook(idx, req)
 }
 
 func New(scheme *runtime.Scheme) *Store {
@@ -349,6 +367,9 @@ func (s *Store) do(req *Request, f func() (*unstructured.Unstructured, error)) (
 	if s.InjectFault != nil {
 		fault = s.InjectFault(req)
 	}
+	if cf := s.callFault(req); cf.Before != nil || cf.After != nil {
+		fault = cf
+	}
 	s.mu.Lock()
 	defer s.mu.Unlock()
 	s.Log = append(s.Log, req)
@@ -509,6 +530,11 @@ func (c *Client) Get(_ context.Context, key client.ObjectKey, obj client.Object,
 	if err != nil {
 		return err
 	}
+	if cf := c.s.callFault(nil); cf.Before != nil {
+		return cf.Before
+	} else if cf.After != nil {
+		return cf.After
+	}
 	c.s.mu.Lock()
 	defer c.s.mu.Unlock()
 	c.s.Reads++
@@ -530,6 +556,11 @@ func (c *Client) List(_ context.Context, list client.ObjectList, opts ...client.
 	gvk.Kind = strings.TrimSuffix(gvk.Kind, "List")
 	lo := client.ListOptions{}
 	lo.ApplyOptions(opts)
+	if cf := c.s.callFault(nil); cf.Before != nil {
+		return cf.Before
+	} else if cf.After != nil {
+		return cf.After
+	}
 	c.s.mu.Lock()
 	defer c.s.mu.Unlock()
 	c.s.Reads++
